@@ -140,6 +140,24 @@ def run_stream(md, kind, validate):
     elif kind == 'bytesio-long-at-0':
         # prior content longer than any dump, stream position still at the beginning
         s = io.BytesIO(PRIOR_LONG)
+    elif kind in ('file-append', 'file-rplus'):
+        # a real file with prior content, opened for appending (writes ignore the seek position) / for update
+        import tempfile
+        fd, fpath = tempfile.mkstemp(prefix='c17-')
+        os.write(fd, PRIOR)
+        os.close(fd)
+        t = ml.make_torrent(md)
+        try:
+            with open(fpath, 'a+b' if kind == 'file-append' else 'r+b') as f:
+                try:
+                    t.write_stream(f, validate=validate)
+                    res = ('ok', None)
+                except Exception as e:  # noqa
+                    res = ('err', sl.canon_exc_site(e))
+            content = open(fpath, 'rb').read()
+        finally:
+            os.unlink(fpath)
+        return res, content
     elif kind == 'nonseekable':
         s = NonSeekable(PRIOR)
     elif kind == 'nonseekable-fail':
@@ -174,7 +192,7 @@ def oracle_write(target, overwrite, res, after, dumped, before):
 
 def run(ck, model_ok):
     ck.rule = ('metainfo = valid or mutated (70%) or unconvertible-but-valid (values None/object/non-str keys); targets: absent / existing file / directory / '
-               'unopenable path / dangling symlink / symlink to a file or a directory / unix socket x overwrite flag x validate flag; streams: BytesIO with prior content, non-seekable writer with prior content, writers whose '
+               'unopenable path / dangling symlink / symlink to a file or a directory / unix socket x overwrite flag x validate flag; streams: BytesIO with prior content, real files with prior content opened a+b / r+b, non-seekable writer with prior content, writers whose '
                'write() fails; oracle: a failed write leaves the target byte-identical (or absent), refusal raises WriteError, success leaves exactly dump(); '
                'model compared where representable; non-trivial = distinct (metainfo, target, flags) whose export fails')
     m = Model()
@@ -191,13 +209,13 @@ def run(ck, model_ok):
             for key, what in oracle_write(target, ow, res, after, dumped, before):
                 ck.fail('oracle', key, case, 'no trace / exact dump', repr((res, after))[:300], what)
             sres = {}
-            for kind in ('bytesio', 'bytesio-long-at-0', 'nonseekable', 'nonseekable-fail', 'seekable-fail'):
+            for kind in ('bytesio', 'bytesio-long-at-0', 'file-append', 'file-rplus', 'nonseekable', 'nonseekable-fail', 'seekable-fail'):
                 r, content = run_stream(md, kind, v)
                 sres[kind] = (r, content)
                 ck.count('stream:' + kind + (':ok' if r[0] == 'ok' else ':' + r[1][0]))
                 scase = dict(case, stream=kind)
                 if r[0] == 'ok':
-                    want = dumped[1] if kind.startswith('bytesio') else PRIOR + dumped[1] if dumped[0] == 'ok' else None
+                    want = dumped[1] if kind.startswith(('bytesio', 'file-')) else PRIOR + dumped[1] if dumped[0] == 'ok' else None
                     if dumped[0] != 'ok' or content != want:
                         ck.fail('oracle', 'stream-success-wrong-content', scase, 'dump()', repr(content)[:200], 'write_stream succeeded with unexpected stream content')
                 else:
@@ -253,6 +271,6 @@ def replay(rp):
             r, content = run_stream(md, c['stream'], c['validate'])
             if r[0] == 'err' and dumped[0] != 'ok' and content != prior_of(c['stream']):
                 v.append(('stream-modified-without-content', repr(content)[:100]))
-            if r[0] == 'ok' and c['stream'].startswith('bytesio') and (dumped[0] != 'ok' or content != dumped[1]):
+            if r[0] == 'ok' and c['stream'].startswith(('bytesio', 'file-')) and (dumped[0] != 'ok' or content != dumped[1]):
                 v.append(('stream-success-wrong-content', repr(content)[:100]))
     return not v, v or 'no trace left'
